@@ -1,2 +1,13 @@
-// Package c17 holds the check for property C17.
+// Package c17 holds the check for property C17: typed arrays, DataViews and ArrayBuffers never touch memory
+// outside their backing buffer, and the bytes they read and write are those of the ECMAScript
+// NumericToRawBytes / RawBytesToNumeric model.
+//
+// Engine E2 (explicit-state search) + reference model verif/ref/tamodel + canary-guarded slabs; see NOTES.md.
+//
+//	ops.go    operation descriptions and the per-configuration alphabets
+//	world.go  implementation side: runtime, slabs, JavaScript helpers, execution and rendering of results
+//	model.go  model side: execution of an operation on tamodel
+//	step.go   one lock-step transition and the oracle; violation signatures
+//	c17.go    registration, start states, bounds, BFS, replay, regression corpus
+//	reexec.go re-executes the process with GODEBUG=invalidptr=0 (see the comment there)
 package c17
